@@ -107,6 +107,21 @@ def fmt2(ctx: Ctx, which: str = "C18") -> None:
                     ctx.R.fail("FMT-2", mod, s, f"{q}: a hidden frame/context must be skipped iff it is hidden and show_hidden_frames is off; counterexample {cex}",
                                construct=f"{q}: visibility test")
         if not found:
+            # the same test as the filter of a comprehension / generator expression (keep-form)
+            for cp in [c_ for c_ in ast.walk(fn) if isinstance(c_, ast.comprehension)]:
+                for t_ in cp.ifs:
+                    if hide in norm(t_):
+                        found = True
+                        try:
+                            ok, cex = equivalent(t_, lambda e: not (e[hide] and not e[show]), [hide, show])
+                        except AnalysisError as ex:
+                            ctx.R.undecided("FMT-2", f"{q}: {ex}")
+                            continue
+                        if ok:
+                            ctx.R.ok("FMT-2", f"{q}: kept iff not ({hide} and not {show}) (comprehension filter)")
+                        else:
+                            ctx.R.fail("FMT-2", mod, t_, f"{q}: a hidden frame/context must be skipped iff it is hidden and show_hidden_frames is off; counterexample {cex}", construct=f"{q}: visibility test")
+        if not found:
             ctx.R.fail("FMT-2", mod, fn, f"{q}: no visibility test on {hide}: hidden items are always shown", construct=f"{q}: visibility test")
     # no other place may decide visibility from `.hide` alone: every test that reads a `.hide` attribute
     # in the formatting / summary code must have the form `<x>.hide and not <show_hidden_frames>`
@@ -135,6 +150,8 @@ def fmt2(ctx: Ctx, which: str = "C18") -> None:
                         ok = False
                 if ok:
                     ctx.R.ok("FMT-2", f"{mod.qualname_of(n)}: additional visibility test {norm(t)[:60]}")
+                elif shows:
+                    ctx.R.undecided("FMT-2", f"{mod.qualname_of(n)}: `{norm(t)[:70]}` reads {hv} together with {shows[0]} and further conditions")
                 else:
                     ctx.R.fail("FMT-2", mod, n if not isinstance(n, ast.comprehension) else t, f"{mod.qualname_of(t) or mod.qualname_of(n)}: an item is skipped because of `{hv}` without consulting show_hidden_frames: "
                                "with show_hidden_frames=True the hidden item (and its subtree) is still omitted", construct=f"visibility decided by {norm(t)[:80]}")
@@ -794,8 +811,12 @@ def cont7(ctx: Ctx) -> None:
             _override = None
     else:
         _override = None
+    def _pos(pairs):
+        # (not X, False) is (X, True)
+        return [((g_[4:], not p_) if g_.startswith("not ") and not g_.startswith("not (") else (g_, p_)) for g_, p_ in pairs]
+    gs = _pos(gs)
     if gs == [("_check_trickery_available()", True)]:
-        other = [x for x in calls_in(fn, True) if norm(x.func) == "_contexts_active_by_referents" and (("_check_trickery_available()", False) in [(norm(g), pol) for g, pol in guards_of(mod, x, fn)]
+        other = [x for x in calls_in(fn, True) if norm(x.func) == "_contexts_active_by_referents" and (("_check_trickery_available()", False) in _pos([(norm(g), pol) for g, pol in guards_of(mod, x, fn)])
                                                                                                         or (_override is not None and (_override, False) in [(norm(g), pol) for g, pol in guards_of(mod, x, fn)]))]
         if other and [norm(a) for a in other[0].args[:2]] == ["frame", "origin"]:
             ctx.R.ok("CONT-7", "trickery iff _check_trickery_available(), else referents(frame, origin)")
